@@ -154,9 +154,31 @@ pub fn c15(tier: &str, seed: u64, meta: &str) -> Report {
     let is_iv = |c: char| "আইঈউঊঋএঐওঔ".contains(c);
     let merge_words: Vec<(&String, usize)> = fp.words.iter().filter_map(|w| { let cs: Vec<char> = w.chars().collect(); (1..cs.len().min(6)).find(|&n| is_iv(cs[n]) && ('ক'..='হ').contains(&cs[n - 1])).map(|n| (w, n)) }).collect();
     let merge_words = &merge_words;
-    let mut rep = par_items(total, |_| (Worker2::new(fpr.p.data.clone()), HashMap::<u32, Session>::new()), |st, i, rep| {
+    // data proviso of "none repeats" (Vec::dedup removes neighbours only): a word must come before its own extensions in
+    // its table, and a word listed twice must not have another match of the same pattern in between.  Every word that
+    // sits AFTER one of its extensions (up to five letters longer), and every word listed twice, is typed as it is.
+    let mut suspects: Vec<String> = Vec::new();
+    for table in fp.p.data.dict.values() {
+        let mut first: HashMap<&str, usize> = HashMap::new();
+        let mut count: HashMap<&str, usize> = HashMap::new();
+        for (n, wd) in table.iter().enumerate() { first.entry(wd.as_str()).or_insert(n); *count.entry(wd.as_str()).or_insert(0) += 1; }
+        for (j, wd) in table.iter().enumerate() {
+            let idx: Vec<usize> = wd.char_indices().map(|(b, _)| b).collect();
+            let nch = idx.len();
+            for cut in nch.saturating_sub(5).max(1)..nch {
+                let pfx = &wd[..idx[cut]];
+                if let Some(&k) = first.get(pfx) { if k > j { suspects.push(pfx.to_string()); } }
+            }
+            if count[wd.as_str()] > 1 { for cut in nch.saturating_sub(5).max(1)..=nch { suspects.push(if cut == nch { wd.clone() } else { wd[..idx[cut]].to_string() }); } }
+        }
+    }
+    suspects.sort(); suspects.dedup();
+    let n_suspects = suspects.len() as u64;
+    let suspects = &suspects;
+    let mut rep = par_items(total + 2 * n_suspects, |_| (Worker2::new(fpr.p.data.clone()), HashMap::<u32, Session>::new()), |st, i, rep| {
         let (w, sessions) = st;
         let mut rng = Rng::new(seed ^ i.wrapping_mul(0xC15));
+        let forced: Option<&String> = if i >= total { Some(&suspects[((i - total) / 2) as usize]) } else { None };
         // traditional joining, smart quotes, English, ANSI
         let bits = 64 | (((i % 2) as u32) << 2) | ((((i / 2) % 2) as u32) << 9) | ((((i / 4) % 2) as u32) << 7) | ((((i / 8) % 4 == 0) as u32) << 8);
         if !sessions.contains_key(&bits) {
@@ -164,25 +186,25 @@ pub fn c15(tier: &str, seed: u64, meta: &str) -> Report {
         }
         let s = sessions.get_mut(&bits).unwrap();
         if s.history.len() > 3000 { s.history.clear(); }
-        let with_zwj = i % 25 == 7 && !reph_ya.is_empty();
-        let with_merge = i % 25 == 13 && !merge_words.is_empty();
+        let with_zwj = forced.is_none() && i % 25 == 7 && !reph_ya.is_empty();
+        let with_merge = forced.is_none() && i % 25 == 13 && !merge_words.is_empty();
         let (mw, mn) = if with_merge { let x = rng.pick(merge_words); (x.0.clone(), x.1) } else { (String::new(), 0) };
-        let base = if with_zwj { (*rng.pick(reph_ya)).clone() } else if with_merge { mw } else { fpr.words[(rng.next() % fpr.words.len() as u64) as usize].clone() };
+        let base = if let Some(f) = forced { f.clone() } else if with_zwj { (*rng.pick(reph_ya)).clone() } else if with_merge { mw } else { fpr.words[(rng.next() % fpr.words.len() as u64) as usize].clone() };
         let n = base.chars().count();
-        let take = if with_merge { (mn + 1 + rng.below(2)).min(n) } else if with_zwj { (base.chars().collect::<Vec<_>>().windows(3).position(|x| x == ['র', '্', 'য']).unwrap_or(0) + 3 + rng.below(2)).min(n) } else { 1 + rng.below(n.min(6)) };
+        let take = if forced.is_some() { n } else if with_merge { (mn + 1 + rng.below(2)).min(n) } else if with_zwj { (base.chars().collect::<Vec<_>>().windows(3).position(|x| x == ['র', '্', 'য']).unwrap_or(0) + 3 + rng.below(2)).min(n) } else { 1 + rng.below(n.min(6)) };
         let mut prefix: String = base.chars().take(take).collect();
         if with_zwj { prefix = prefix.replacen("র্য", "র\u{200D}্য", 1); }
         // explicit joiners in the typed word: a zero-width joiner is significant (Ra + ZWJ + Zo-fola is not Reph + Ya),
         // a zero-width non-joiner is what traditional joining adds and is ignored
-        if rng.chance(1, 8) {
+        if forced.is_none() && rng.chance(1, 8) {
             if prefix.contains("র্য") && rng.chance(2, 3) { prefix = prefix.replacen("র্য", "র\u{200D}্য", 1); }
             else { let cs: Vec<char> = prefix.chars().collect(); let at = 1 + rng.below(cs.len()); prefix = cs[..at].iter().chain([if rng.chance(2, 3) { '\u{200D}' } else { '\u{200C}' }].iter()).chain(cs[at..].iter()).collect(); }
         }
-        let lead = *rng.pick(&["", "", "", "(", "\"", "'"][..]);
-        let trail = *rng.pick(&["", "", "", "!!", ")", "\".", "'", "?!", ",", ";;"][..]);
+        let lead = if forced.is_some() { "" } else { *rng.pick(&["", "", "", "(", "\"", "'"][..]) };
+        let trail = if forced.is_some() { "" } else { *rng.pick(&["", "", "", "!!", ")", "\".", "'", "?!", ",", ";;"][..]) };
         // an independent vowel behind a consonant may also be typed as hasanta + vowel sign (the two merge into the
         // vowel: the composition changes although its length does not)
-        let spelled: String = if with_merge || rng.chance(1, 5) {
+        let spelled: String = if forced.is_none() && (with_merge || rng.chance(1, 5)) {
             let cs: Vec<char> = prefix.chars().collect();
             let mut o = String::new();
             for (n, c) in cs.iter().enumerate() {
@@ -193,7 +215,10 @@ pub fn c15(tier: &str, seed: u64, meta: &str) -> Report {
         } else { prefix.clone() };
         let typed_text = format!("{}{}{}", lead, spelled, trail);
         let mut evs = match fpr.keys_for(&typed_text) { Some(k) => k, None => return };
-        let used_backspace = rng.chance(1, 8);
+        // now and then a key the layout has no value for is pressed inside the word (keypad "=", a keypad digit with the
+        // number-pad option off): it changes nothing and is not part of the raw key text
+        if forced.is_none() && rng.chance(1, 6) && !evs.is_empty() { let at = rng.below(evs.len() + 1); evs.insert(at, SEv::Key([0x0E0Du16, 76, 0x0E1C][rng.below(3)], 0, 0)); }
+        let used_backspace = forced.is_none() && rng.chance(1, 8);
         if used_backspace { evs.push(SEv::Back(false)); }
         evs.push(SEv::Finish);
         let steps = feed(w, s, &evs, rep, "C15");
@@ -211,7 +236,7 @@ pub fn c15(tier: &str, seed: u64, meta: &str) -> Report {
         let mut seen = HashSet::new();
         for x in &list { if !seen.insert(x) { fail(rep, "a candidate repeats", json!({"candidate": x})); } }
         // raw key text: the ASCII characters of the keys pressed
-        let typed_raw: String = s.history.iter().rev().skip(1).take(evs.len() - 1).collect::<Vec<_>>().into_iter().rev().filter_map(|e| match e { SEv::Key(k, _, _) => key_char(*k), _ => None }).collect();
+        let typed_raw: String = s.history.iter().rev().skip(1).take(evs.len() - 1).collect::<Vec<_>>().into_iter().rev().filter_map(|e| match e { SEv::Key(k, m, _) if fpr.km.value_of.contains_key(&(*k, m & 2 != 0)) => key_char(*k), _ => None }).collect();
         let clean = |x: &str| -> String { x.chars().filter(|c| !"|()[]{}^$*+?.~!@#%&-_='\";<>/\\,:`।\u{200C}".contains(*c)).collect() };
         let cw = clean(&word);
         let mut prevd = 0usize;
@@ -233,7 +258,7 @@ pub fn c15(tier: &str, seed: u64, meta: &str) -> Report {
         if list.len() > 2 { rep.nontrivial_key(&format!("{} {}", bits, aux)); }
         if rep.samples.len() < 2 && i % 997 == 3 { rep.sample(json!({"typed": typed_text, "composed_text": aux, "option_bits": bits, "candidates": list})); }
     });
-    rep.extra.insert("rule".into(), json!("prefixes (1-6 letters) of random dictionary words typed through Probhat, a fifth with independent vowels behind consonants typed as hasanta + vowel sign, an eighth of them with an explicit zero-width joiner / non-joiner typed inside (Ra + ZWJ + Zo-fola where the word has Reph + Ya), bare or wrapped in quotes / brackets / repeated marks, sometimes followed by a backspace, under the 16 settings of traditional joining, smart quotes, English, ANSI; every list judged against dictionary.json read independently (membership, prefix, edit distance order, at most nine, no repeats, English last); also compared with the extracted model; non-trivial = more than two candidates"));
+    rep.extra.insert("rule".into(), json!(format!("prefixes (1-6 letters) of random dictionary words typed through Probhat, a fifth with independent vowels behind consonants typed as hasanta + vowel sign, an eighth of them with an explicit zero-width joiner / non-joiner typed inside (Ra + ZWJ + Zo-fola where the word has Reph + Ya), bare or wrapped in quotes / brackets / repeated marks, sometimes followed by a backspace, under the 16 settings of traditional joining, smart quotes, English, ANSI; every word of the dictionary that stands behind one of its own extensions in its table or is listed twice (the data proviso of 'none repeats'; {} such words) is typed as it is; every list judged against dictionary.json read independently (membership, prefix, edit distance order, at most nine, no repeats, English last); also compared with the extracted model; non-trivial = more than two candidates", n_suspects)));
     rep
 }
 
